@@ -1,6 +1,7 @@
 """C12 - Python literals are promoted identically by converter, eager mode and builder."""
 from __future__ import annotations
 
+import keyword
 import math
 import os
 import re
@@ -40,7 +41,7 @@ TIMEOUT = {"quick": 1500, "thorough": 5 * 3600}
 
 # Named regions of confirmed findings that the *sequence* generator keeps out of while developing (see report); the
 # exhaustive part cannot reach them (each case has a fresh builder, all its float literals are float32-exact).
-EXCLUDE: set = set()
+EXCLUDE: set = set(filter(None, os.environ.get("VERIF_C12_EXCLUDE", "").split(",")))
 
 SUP = ["FLOAT", "DOUBLE", "FLOAT16", "BFLOAT16", "INT8", "INT16", "INT32", "INT64", "UINT8", "UINT16", "UINT32", "UINT64", "BOOL"]
 TYPE_STR = {"tensor(float)": "FLOAT", "tensor(double)": "DOUBLE", "tensor(float16)": "FLOAT16", "tensor(bfloat16)": "BFLOAT16",
@@ -50,8 +51,17 @@ TYPE_STR = {"tensor(float)": "FLOAT", "tensor(double)": "DOUBLE", "tensor(float1
 OPERAND_PREF = ["FLOAT", "INT64", "BOOL", "DOUBLE", "INT32", "UINT8", "FLOAT16", "INT8", "BFLOAT16", "INT16", "UINT16", "UINT32", "UINT64", "STRING"]
 FAMILY = {"FLOAT": "FLOAT", "DOUBLE": "DOUBLE", "FLOAT16": "F16", "BFLOAT16": "BF16", "BOOL": "BOOL",
           "INT8": "int", "INT16": "int", "INT32": "int", "INT64": "int", "UINT8": "uint", "UINT16": "uint", "UINT32": "uint", "UINT64": "uint"}
+# onnx's C++ shape inference for SplitToSequence divides by the constant `split` (SIGFPE kills the process when a typed
+# GraphBuilder infers the node).  An onnx defect, unrelated to literal promotion: the typed-builder observation is skipped there.
+NATIVE_CRASH = {("SplitToSequence", 1, "0")}
 MAIN_LITERALS = ["0", "1", "-3", "2.5", "-0.0", "True", "[1, 2]", "[0.5]"]
 FRONTENDS = ["static", "eager", "builder", "builder_untyped"]
+# Python operators the converter maps to ops (converter.primop_map) and onnxscript.tensor.Tensor overloads for eager mode.
+# Reflected forms (literal on the left) only where Tensor defines the reflected method; comparisons are right-literal only
+# because Python swaps `1 < X` into `X > 1` in eager mode (another op, another position).  ir.Value has no operators: no builder.
+OPSYM = {"Add": "+", "Sub": "-", "Mul": "*", "Div": "/", "Pow": "**", "Mod": "%", "Less": "<", "LessOrEqual": "<=", "Greater": ">",
+         "GreaterOrEqual": ">=", "Equal": "==", "And": "&", "Or": "|", "MatMul": "@"}
+REFLECTED = {"+", "-", "*", "&"}
 
 
 # ----------------------------------------------------------------------------- small helpers
@@ -69,7 +79,7 @@ def np_dtype(name):
 
 def lit_value(text):
     """The Python value denoted by a literal text (only texts produced by this module)."""
-    return eval(text, {"__builtins__": {}}, {"float": float, "nan": float("nan"), "inf": float("inf")})  # noqa: S307
+    return eval(text, {"__builtins__": {}}, {"NAN": float("nan")})  # noqa: S307
 
 
 def default_dtype(v):
@@ -258,7 +268,7 @@ def shares(fp, fq):
     return fp["isvar"] and fq["isvar"] and fp["ts"] == fq["ts"] and not het(fp) and not het(fq)
 
 
-def build_stmts(name, since, V, literals, tail_extra, skip=None):
+def build_stmts(name, since, V, literals, tail_extra, skip=None, exclude=(), excluded=lambda r: None):
     """All statements (call texts with one observed literal position) for one (op, since_version)."""
     import onnx
 
@@ -321,9 +331,36 @@ def build_stmts(name, since, V, literals, tail_extra, skip=None):
                                 toks.append("None")
                         text = f"op.{name}({', '.join(toks + attrs)})"
                         base = f"op.{name}({', '.join([('X99' if q == p else t) for q, t in enumerate(toks)] + attrs)})"
-                        stmts.append({"op": name, "since": since, "V": V, "p": p, "lit": lit, "text": text, "base": base, "mode": mode, "poskind": poskind,
-                                      "optnone": optnone, "alone": bool(variadic and p == n - 1 and hi == n - 1), "operands": operands,
-                                      "sib_dtypes": sib_dtypes})
+                        common = {"op": name, "since": since, "V": V, "p": p, "lit": lit, "mode": mode, "poskind": poskind, "optnone": optnone,
+                                  "alone": bool(variadic and p == n - 1 and hi == n - 1), "operands": operands, "sib_dtypes": sib_dtypes}
+                        stmts.append(dict(common, text=text, base=base, form="positional"))
+                        if p == hi and 1 <= p < n and fp["option"] != "variadic" and mode != "allit" and fp["name"].isidentifier() \
+                                and not keyword.iskeyword(fp["name"]):
+                            # the literal as the last provided input, passed by keyword (omitted optional predecessors stay omitted)
+                            head = [t for t in toks[:p]]
+                            while head and head[-1] == "None":
+                                head.pop()
+                            if len(head) < p and "keyword_input_after_omitted_optional" in exclude:
+                                if lit == literals[0]:
+                                    excluded("keyword_input_after_omitted_optional")
+                            elif len(head) == p or optnone:
+                                kw = f"op.{name}({', '.join(head + [fp['name'] + '=' + lit] + attrs)})"
+                                kwb = f"op.{name}({', '.join(head + [fp['name'] + '=X99'] + attrs)})"
+                                stmts.append(dict(common, text=kw, base=kwb, form="keyword", kwgap=len(head) < p))
+    sym = OPSYM.get(name)
+    if sym and n == 2 and F[0]["kind"] == "tensor" and F[1]["kind"] == "tensor":
+        sib = shares(F[0], F[1])
+        for p in ((1, 0) if sym in REFLECTED else (1,)):
+            fp = F[p]
+            q = 1 - p
+            operands = {f"X{q}": {"kind": "tensor", "dtype": operand_default(F[q]), "sib": sib}}
+            sib_dtypes = [d for d in fp["tens"] if d in SUP] if sib else [None]
+            for lit in literals:
+                text = f"X0 {sym} {lit}" if p == 1 else f"{lit} {sym} X1"
+                base = f"X0 {sym} X99" if p == 1 else f"X99 {sym} X1"
+                stmts.append({"op": name, "since": since, "V": V, "p": p, "lit": lit, "mode": "sib" if sib else "nosib", "poskind": "single",
+                              "optnone": False, "alone": False, "operands": operands, "sib_dtypes": sib_dtypes, "text": text, "base": base,
+                              "form": "operator"})
     return stmts
 
 
@@ -337,7 +374,8 @@ def instantiate(stmt, d):
     v = lit_value(stmt["lit"])
     has_sib = any(o["sib"] for o in operands.values())
     target = d if (has_sib and d is not None) else default_dtype(v)
-    return {"V": stmt["V"], "op": stmt["op"], "since": stmt["since"], "text": stmt["text"], "base": stmt["base"], "p": stmt["p"], "lit": stmt["lit"],
+    return {"V": stmt["V"], "op": stmt["op"], "since": stmt["since"], "text": stmt["text"], "base": stmt["base"], "form": stmt.get("form", "positional"), "kwgap": bool(stmt.get("kwgap")),
+            "p": stmt["p"], "lit": stmt["lit"],
             "operands": operands, "target": target, "mode": stmt["mode"], "poskind": stmt["poskind"], "optnone": stmt["optnone"],
             "alone": stmt.get("alone", False)}
 
@@ -411,8 +449,8 @@ class StaticUnit:
 
         params = sorted({m for t in texts for m in _NAME.findall(t)}, key=lambda s: (len(s), s))
         body = "".join(f"    r{k} = {t}\n" for k, t in enumerate(texts))
-        src = f"@script()\ndef f({', '.join(params) or 'X0'}):\n{body}    return r0\n"
-        mod = scriptgen.compile_source(src, opset=self.V)
+        src = f"@script(default_opset=op)\ndef f({', '.join(params) or 'X0'}):\n{body}    return r0\n"
+        mod = scriptgen.compile_source(src, opset=self.V, extra_globals={"NAN": float("nan")})
         try:
             fp = mod.f.to_function_proto()
         finally:
@@ -430,29 +468,29 @@ class StaticUnit:
         _, by_out, inputs, out = e
         node = by_out.get(out)
         if node is None:
-            return ("odd", f"no node writes {out}")
+            return ("odd", "no node writes the statement target", out)
         if p >= len(node.input) or not node.input[p]:
-            return ("odd", f"{node.op_type} has no input at position {p}: {list(node.input)}")
+            return ("odd", "no input at the literal's position", f"{node.op_type}{list(node.input)}")
         return _proto_chain(by_out, inputs, node.input[p], operands)
 
 
 def _proto_chain(by_out, inputs, name, operands):
     prod = by_out.get(name)
     if prod is None:
-        return ("odd", f"operand {name} is not produced by a node (function input?)")
+        return ("odd", "operand is not produced by a node", name)
     like = None
     if prod.op_type == "CastLike":
         if list(prod.attribute):
-            return ("odd", "CastLike with attributes")
+            return ("odd", "CastLike with attributes", "")
         y = prod.input[1]
         if y not in inputs or y not in operands or operands[y]["kind"] != "tensor":
-            return ("odd", f"CastLike target {y} is not a tensor parameter")
+            return ("odd", "CastLike target is not a tensor parameter", y)
         like = operands[y]["dtype"]
         prod = by_out.get(prod.input[0])
         if prod is None:
-            return ("odd", "CastLike source is not produced by a node")
+            return ("odd", "CastLike source is not produced by a node", "")
     if prod.op_type != "Constant" or len(prod.attribute) != 1 or prod.attribute[0].name != "value":
-        return ("odd", f"literal operand produced by {prod.op_type}<{[a.name for a in prod.attribute]}>")
+        return ("odd", f"literal operand produced by {prod.op_type}", str([a.name for a in prod.attribute]))
     return tensor_to_obs(prod.attribute[0].t, like)
 
 
@@ -483,13 +521,13 @@ def _eager_env(V, operands):
     import onnxscript
     from onnxscript import tensor
 
-    env = {"op": getattr(onnxscript, f"opset{V}"), "float": float, "nan": float("nan"), "inf": float("inf")}
+    env = {"op": getattr(onnxscript, f"opset{V}"), "NAN": float("nan")}
     for name, o in operands.items():
         if o["kind"] == "tensor":
             if o["dtype"] == "STRING":
-                env[name] = tensor.Tensor(np.array(["a", "b"], dtype=object))
+                env[name] = tensor.Tensor(np.array(["a", "b"], dtype=object), opset=env["op"])
             else:
-                env[name] = tensor.Tensor(np.zeros((2,), dtype=np_dtype(o["dtype"])))
+                env[name] = tensor.Tensor(np.zeros((2,), dtype=np_dtype(o["dtype"])), opset=env["op"])
         elif o["kind"] == "seq":
             env[name] = [tensor.Tensor(np.zeros((2,), dtype=np.float32))]
         else:
@@ -509,13 +547,13 @@ def observe_eager(V, text, p, operands):
     except Exception as e:  # noqa: BLE001
         return refusal(e)
     if not s.calls:
-        return ("odd", "evaluator not called")
+        return ("odd", "evaluator not called", "")
     inputs = s.calls[-1][2]
     if p >= len(inputs):
-        return ("odd", f"evaluator received {len(inputs)} inputs, position {p} missing")
+        return ("odd", "no input at the literal's position", f"evaluator received {len(inputs)} inputs")
     x = inputs[p]
     if not isinstance(x, tensor.Tensor):
-        return ("odd", f"operand reaches the evaluator unpromoted as {type(x).__name__}")
+        return ("odd", f"operand reaches the evaluator unpromoted as {type(x).__name__}", "")
     return arr_obs(x.value, dtype_name_of_np(x.value.dtype))
 
 
@@ -534,7 +572,7 @@ class BuilderSession:
 
     def _env(self, operands):
         ir = _ir()
-        env = {"op": self.gb.op, "float": float, "nan": float("nan"), "inf": float("inf")}
+        env = {"op": self.gb.op, "NAN": float("nan")}  # a fresh NaN object per use, as float("nan") in user code
         for name, o in operands.items():
             if name not in self.inputs:
                 if not self.typed:
@@ -559,9 +597,9 @@ class BuilderSession:
         elif isinstance(r, (list, tuple)) and r and isinstance(r[0], ir.Value):
             node = r[0].producer()
         else:
-            return ("odd", f"builder call returned {type(r).__name__}")
+            return ("odd", f"builder call returned {type(r).__name__}", "")
         if node is None or p >= len(node.inputs) or node.inputs[p] is None:
-            return ("odd", f"no input at position {p}")
+            return ("odd", "no input at the literal's position", f"{node.op_type if node is not None else None}{[i.name if i is not None else None for i in node.inputs] if node is not None else ''}")
         return self._chain(node.inputs[p], operands)
 
     def _chain(self, val, operands):
@@ -571,24 +609,24 @@ class BuilderSession:
         if prod is not None and prod.op_type == "CastLike":
             y = prod.inputs[1]
             if y is None or y.name not in operands or self.inputs.get(y.name) is not y or operands[y.name]["kind"] != "tensor":
-                return ("odd", "CastLike target is not a tensor graph input")
+                return ("odd", "CastLike target is not a tensor graph input", "")
             if y.type is not None:
-                return ("odd", "CastLike although the target's type is known")
+                return ("odd", "CastLike although the target's type is known", "")
             like = operands[y.name]["dtype"]
             val = prod.inputs[0]
             prod = val.producer()
         if prod is not None:
             if prod.op_type != "Constant" or "value" not in prod.attributes:
-                return ("odd", f"literal operand produced by {prod.op_type}")
+                return ("odd", f"literal operand produced by {prod.op_type}", "")
             t = prod.attributes["value"].as_tensor()
         else:
             if val.const_value is None:
-                return ("odd", f"operand {val.name} has no producer and no const_value")
+                return ("odd", "operand has no producer and no const_value", val.name)
             if self.graph.initializers.get(val.name) is not val:
-                return ("odd", f"operand {val.name} is not registered as an initializer of the graph")
+                return ("odd", "operand is not registered as an initializer of the graph", val.name)
             t = val.const_value
             if val.type is not None and val.type.dtype != t.dtype:
-                return ("odd", f"initializer {val.name} declared {val.type.dtype.name} holds {t.dtype.name}")
+                return ("odd", "initializer declared type differs from its tensor", f"{val.name} declared {val.type.dtype.name} holds {t.dtype.name}")
         return tensor_to_obs(ir.serde.serialize_tensor(t), like)
 
 
@@ -598,7 +636,9 @@ def judge(case, obs):
     v = lit_value(case["lit"])
     target = case["target"]
     kind, exp = expect(v, target)
-    cls = f"{lit_class(v)}->{FAMILY[target]}:{case['mode']}"
+    lc = lit_class(v)
+    has_sib = any(o["sib"] for o in case["operands"].values())
+    where = f"{case['mode']}:{case['poskind']}"
     problems = {}  # (kind, signature) -> [frontends]
     info = {"expect": kind, "refusals": []}
     for fe in FRONTENDS:
@@ -610,7 +650,7 @@ def judge(case, obs):
         if o[0] == "skip":
             continue
         if o[0] == "odd":
-            problems.setdefault(("odd", o[1][:80]), []).append(fe)
+            problems.setdefault(("odd", o[1]), []).append(fe)
             continue
         if o[0] == "refuse":
             info["refusals"].append(fe)
@@ -619,7 +659,9 @@ def judge(case, obs):
             continue
         _, dt, shape, hexbytes, short = o
         if dt != target:
-            problems.setdefault(("dtype", f"{dt} instead of {target}"), []).append(fe)
+            got_d = "literal's default dtype" if dt == default_dtype(v) else dt
+            want_d = "sibling's dtype" if has_sib else f"default {target}"
+            problems.setdefault(("dtype", f"{got_d} instead of {want_d}"), []).append(fe)
             continue
         want_shape = (len(v),) if isinstance(v, list) else ()
         if tuple(shape) != want_shape:
@@ -644,7 +686,23 @@ def judge(case, obs):
             info.setdefault("got", {})[fe] = short
     verdicts = []
     for (pk, sig), fes in sorted(problems.items()):
-        bucket = f"{pk}:{'+'.join(fes)}:{cls}" + (f":{sig}" if pk in ("refuse", "dtype") else "")
+        fe_s = "+".join(fes)
+        if pk == "refuse" or (pk, sig) == ("value", "sign-of-zero"):
+            # typed and untyped GraphBuilder share the constant cache / initializer code: one front end for these root causes
+            fe_s = "+".join(dict.fromkeys("builder" if f == "builder_untyped" else f for f in fes))
+        if (pk, sig) == ("value", "sign-of-zero"):
+            bucket = f"value:{fe_s}:sign-of-zero"
+        elif pk == "value":  # root cause is a property of (front ends, literal class), not of op / position / target
+            bucket = f"value:{fe_s}:{lc[:-4] if lc.endswith('list') else lc}:{sig}"
+        elif pk == "odd":
+            fe_s = "+".join(dict.fromkeys("builder" if f == "builder_untyped" else f for f in fes))
+            bucket = f"odd:{fe_s}:{sig}:form={case.get('form', 'positional')}"
+        elif pk == "shape":
+            bucket = f"shape:{fe_s}:{lc}:{where}"
+        elif pk == "refuse":  # the raising site is the root cause
+            bucket = f"refuse:{fe_s}:{lc[:-4] if lc.endswith('list') else lc}:{sig}"
+        else:
+            bucket = f"{pk}:{fe_s}:{lc}:{where}:{sig}"
         seen = {fe: (obs[fe][:3] + obs[fe][4:] if obs[fe][0] == "val" else obs[fe]) for fe in FRONTENDS if fe in obs}
         detail = (f"{case['text']} (opset {case['V']}, position {case['p']}, operands "
                   f"{ {k: o['dtype'] for k, o in case['operands'].items()} }): rule demands {target} "
@@ -679,27 +737,33 @@ def observe_case(case, static_obs=None, sessions=None):
     obs["static"] = static_obs
     obs["eager"] = observe_eager(case["V"], case["text"], case["p"], case["operands"])
     for typed, fe in ((True, "builder"), (False, "builder_untyped")):
+        if case.get("form") == "operator":
+            obs[fe] = ("skip", "not_applicable", "ir.Value defines no Python operators")
+            continue
+        if typed and (case["op"], case["p"], case["lit"]) in NATIVE_CRASH:
+            obs[fe] = ("skip", "native_crash_avoided", "onnx shape inference crashes the process on this call")
+            continue
         s = sessions[typed] if sessions else BuilderSession(case["V"], typed)
         obs[fe] = s.observe(case["text"], case["p"], case["operands"])
     # a front end that refuses the call itself (not the literal) is not judged on this case
     for fe in FRONTENDS:
         if obs[fe][0] == "refuse" and baseline_refuses(fe, case, BuilderSession):
-            obs[fe] = ("skip", "front end refuses the call even with a tensor operand: " + obs[fe][1])
+            obs[fe] = ("skip", "refuses_call", "front end refuses the call even with a tensor operand: " + obs[fe][1] + ": " + obs[fe][2])
     return obs
 
 
 def case_classes(case, info, obs):
     v = lit_value(case["lit"])
-    cl = [f"pos:{case['poskind']}", f"mode:{case['mode']}", f"lit:{lit_class(v)}", f"target:{case['target']}", f"expect:{info['expect']}",
+    cl = [f"form:{case.get('form', 'positional')}", f"pos:{case['poskind']}", f"mode:{case['mode']}", f"lit:{lit_class(v)}", f"target:{case['target']}", f"expect:{info['expect']}",
           f"opset_of_schema:{case['V']}"]
     if case["optnone"]:
-        cl.append("optional_predecessor_None")
+        cl.append("optional_predecessor_None" if not case.get("kwgap") else "optional_predecessor_omitted_then_keyword")
     if case.get("alone"):
         cl.append("literal_alone_in_variadic")
     for fe in FRONTENDS:
         o = obs.get(fe)
         if o is not None and o[0] in ("refuse", "skip"):
-            cl.append(f"{fe}:{'refuses_literal' if o[0] == 'refuse' else 'refuses_call'}")
+            cl.append(f"{fe}:{'refuses_literal' if o[0] == 'refuse' else o[1]}")
     return cl
 
 
@@ -712,12 +776,13 @@ def nontrivial(case):
 # ----------------------------------------------------------------------------- exhaustive part
 def run_exhaustive(spec, col):
     only = os.environ.get("VERIF_ONLY")
+    EXCL = active_exclusions(spec)
     vio_ops = {}
     for name, since, V in spec["ops"]:
         if only and only != name:
             col.extra["exhaustive_complete"] = False
             continue
-        stmts = build_stmts(name, since, V, MAIN_LITERALS, spec["tail_extra"], skip=col.skip)
+        stmts = build_stmts(name, since, V, MAIN_LITERALS, spec["tail_extra"], skip=col.skip, exclude=EXCL, excluded=col.exclude)
         col.hist[f"ops_enumerated"] += 1
         if not stmts:
             continue
@@ -743,11 +808,16 @@ SEQ_OPS = ["Add", "Sub", "Mul", "Div", "Pow", "Max", "Min", "Sum", "Mean", "Wher
            "PRelu", "Mod", "Concat", "Reshape", "Expand", "Gather", "Pad", "MatMul", "Gemm", "ScatterElements", "Range", "CumSum",
            "Tile", "BitShift"]
 SEQ_V = 18
-SEQ_LITERALS = ["0", "0.0", "-0.0", "False", "1", "True", "1.0", "-1", "2", "3", "-3", "2.5", "0.5", "0.1", "0.001", "1e-9", "1e39",
-                "255", "256", "-128", "16777217", "16777217.0", "9007199254740992", "9007199254740993", "9007199254740992.0",
-                "9007199254740994.0", "9223372036854775807", "float('nan')", "float('inf')", "-float('inf')", "65504.0", "65520.0",
-                "[0]", "[0.0]", "[-0.0]", "[False]", "[1]", "[1.0]", "[True]", "[1, 2]", "[1.0, 2.0]", "[0.5]", "[0.1]", "[0.0, -0.0]",
-                "[-0.0, 0.0]", "[float('nan')]", "[2, -1]", "[True, False]"]
+SEQ_GROUPS = {
+    "zero": ["0", "0.0", "-0.0", "False", "[0]", "[0.0]", "[-0.0]", "[False]", "[0.0, -0.0]", "[-0.0, 0.0]", "[0, 0]"],
+    "one": ["1", "True", "1.0", "[1]", "[1.0]", "[True]", "[1, 2]", "[1.0, 2.0]", "[True, False]"],
+    "small": ["-1", "2", "3", "-3", "2.5", "0.5", "[0.5]", "[2, -1]", "255", "256", "-128", "65504.0", "65520.0"],
+    "inexact": ["0.1", "0.001", "1e-9", "1e39", "[0.1]", "16777217", "16777217.0", "[16777217.0]"],
+    "big": ["9007199254740992", "9007199254740993", "9007199254740992.0", "9007199254740994.0", "9223372036854775807",
+            "[9007199254740993]"],
+    "special": ["NAN", "1e999", "-1e999", "[1e999]", "0.0", "-0.0"],
+}
+SEQ_LITERALS = sorted({x for g in SEQ_GROUPS.values() for x in g})
 SEQ_DTYPES = ["FLOAT", "DOUBLE", "FLOAT16", "BFLOAT16", "INT64", "INT32", "INT8", "UINT8", "BOOL"]
 _SEQ_TABLE = {}
 
@@ -767,44 +837,44 @@ def _lit_tokens_replace(text, lit):
     return re.sub(r"\bLIT\b", lit, text)
 
 
+def _builder_key(c, typed):
+    """(cache key, bytes of the tensor the literal must become) as GraphBuilder._get_or_create_constant forms the key."""
+    v = lit_value(c["lit"])
+    first = v[0] if isinstance(v, list) else v
+    has_sib = any(o["sib"] for o in c["operands"].values())
+    if typed and has_sib:
+        dt = c["target"]
+    else:
+        dt = None if isinstance(first, bool) else default_dtype(v)
+    kind, exp = expect(v, dt or "BOOL")
+    return (tuple(v) if isinstance(v, list) else v, dt), (exp.tobytes() if exp is not None else None)
+
+
+def _is_nan(e):
+    return isinstance(e, float) and math.isnan(e)
+
+
 def _region_hits(items):
-    """Names of known-finding regions a sequence (list of instantiated cases) falls into, with the index of the use to redirect."""
+    """[(region name, index of the use that enters it)] for the regions of recorded findings (predicates over generator parameters)."""
     hits = []
-    keys = {}
     for i, c in enumerate(items):
         v = lit_value(c["lit"])
-        kind, exp = expect(v, c["target"])
         elems = v if isinstance(v, list) else [v]
-        fl = [e for e in elems if isinstance(e, float)]
-        if c["target"] == "DOUBLE" and any(math.isfinite(e) and float(np.float32(e)) != e for e in fl):
-            hits.append(("static_float_literal_rounded_via_float32", i))
-        if c["target"] in ("FLOAT16", "BFLOAT16", "FLOAT") and any(math.isfinite(e) and abs(e) > 3.4028234663852886e38 for e in fl):
-            pass
-        # builder constant cache: key is (python value | tuple, resolved dtype) compared with == / hash
-        key_dtype = c["target"] if (any(o["sib"] for o in c["operands"].values()) or not isinstance(elems[0], bool)) else None
-        try:
-            key = (tuple(v) if isinstance(v, list) else v, key_dtype)
-            hash(key)
-        except TypeError:
-            continue
-        bits = exp.tobytes() if exp is not None else None
-        has_nan = any(isinstance(e, float) and math.isnan(e) for e in elems)
-        for (k2, bits2, nan2, j) in keys.get(_eqclass(key), []):
-            if has_nan and nan2 and k2[1] == key[1] and not isinstance(v, list):
-                hits.append(("builder_nan_literal_twice", i))
-            elif k2 == key and bits is not None and bits2 is not None and bits != bits2:
-                hits.append(("builder_cache_conflates_signed_zero", i))
-        keys.setdefault(_eqclass(key), []).append((key, bits, has_nan, i))
-    return hits
-
-
-def _eqclass(key):
-    v, d = key
-    def norm(e):
-        if isinstance(e, float) and math.isnan(e):
-            return "nan"
-        return float(e) if not isinstance(e, int) or abs(e) < 2 ** 53 else e
-    return (tuple(norm(e) for e in v) if isinstance(v, tuple) else norm(v), d)
+        # static route and untyped builder: float literal -> FLOAT constant -> CastLike: value passes through float32
+        if any(isinstance(e, float) and not isinstance(e, bool) and math.isfinite(e) and float(np.float32(e)) != e for e in elems) \
+                and c["target"] != "FLOAT" and expect(v, c["target"])[0] == "exact":
+            hits.append(("float_literal_rounded_via_float32", i))
+        for typed in (True, False):
+            key, bits = _builder_key(c, typed)
+            for j in range(i):
+                key2, bits2 = _builder_key(items[j], typed)
+                if key2[1] != key[1]:
+                    continue
+                if not isinstance(v, list) and _is_nan(v) and _is_nan(key2[0]):
+                    hits.append(("builder_nan_literal_twice", i))  # same initializer name const_nan_<dtype>, key never equal
+                elif key2 == key and bits is not None and bits2 is not None and bits != bits2:
+                    hits.append(("builder_cache_conflates_signed_zero", i))  # == / hash equal, different tensors
+    return sorted(set(hits))
 
 
 @st.composite
@@ -812,7 +882,10 @@ def sequences(draw):
     table = seq_table()
     n = draw(st.integers(2, 8))
     # bias towards collisions: a small sub-pool of literals and dtypes per sequence
-    pool = draw(st.lists(st.sampled_from(SEQ_LITERALS), min_size=1, max_size=4))
+    group = draw(st.sampled_from(sorted(SEQ_GROUPS)))
+    pool = draw(st.lists(st.sampled_from(SEQ_GROUPS[group]), min_size=1, max_size=4))
+    if draw(st.booleans()):
+        pool.append(draw(st.sampled_from(SEQ_LITERALS)))
     dts = draw(st.lists(st.sampled_from(SEQ_DTYPES), min_size=1, max_size=2))
     ops = draw(st.lists(st.sampled_from(SEQ_OPS), min_size=1, max_size=3))
     uses = []
@@ -863,17 +936,37 @@ def check_sequence(items):
     return verdicts, infos, all_obs
 
 
+def active_exclusions(spec):
+    """EXCLUDE plus the regions of the committed known findings the runner told this shard about."""
+    ex = set(EXCLUDE)
+    if spec.get("known_ids"):
+        from vf.runner import load_known
+
+        ex |= {e.get("region") for e in load_known(ID) if e.get("id") in spec["known_ids"] and e.get("region")}
+    return ex
+
+
 def run_sequences(spec, col):
+    EXCL = active_exclusions(spec)
+
     def body(uses):
+        if "keyword_input_after_omitted_optional" in EXCL:
+            table, redirected_uses = seq_table(), []
+            for (n, k, lit, d) in uses:
+                if table[n][k].get("kwgap"):  # the positional form of the same layout precedes its keyword form in the table
+                    col.exclude("keyword_input_after_omitted_optional")
+                    k -= 1
+                redirected_uses.append((n, k, lit, d))
+            uses = redirected_uses
         items = materialise(uses)
         hits = _region_hits(items)
         redirected = False
         for region, i in hits:
-            if region in EXCLUDE:
+            if region in EXCL:
                 col.exclude(region)
                 redirected = True
         if redirected:
-            bad = {i for region, i in hits if region in EXCLUDE}
+            bad = {i for region, i in hits if region in EXCL}
             uses = [(n, k, ("7" if i in bad else lit), d) for i, (n, k, lit, d) in enumerate(uses)]
             items = materialise(uses)
         verdicts, infos, all_obs = check_sequence(items)
@@ -965,4 +1058,5 @@ def _case_items(case):
 
 
 REGIONS = {name: (lambda case, _n=name: any(r == _n for r, _ in _region_hits(_case_items(case))))
-           for name in ("static_float_literal_rounded_via_float32", "builder_cache_conflates_signed_zero", "builder_nan_literal_twice")}
+           for name in ("float_literal_rounded_via_float32", "builder_cache_conflates_signed_zero", "builder_nan_literal_twice")}
+REGIONS["keyword_input_after_omitted_optional"] = lambda case: any(c.get("form") == "keyword" and c.get("kwgap") for c in _case_items(case))
